@@ -415,6 +415,54 @@ def run(rep, tier, rng):
             d = bad[0]
             rep.violation(f"C20|fragment-program|{d['code']}", f"rustc reports `{d['code']}: {(d['message'] or '')[:160]}` for a program whose types / expressions / attributes are macro_rules! "
                           f"fragments (the same program without derive_ex compiles under the same header):\n{c.code[:700]}", {"code": c.code})
+    # ---- further fixed programs, each next to its control (the same program without derive_ex and its helper attributes):
+    # (a) default values that need the documented `Into` conversion (string literal, path) handed in as `$e:expr` fragments;
+    # (b) a field type that mentions a type parameter AND `Self`, under operators in all reference forms and Clone
+    FX = {}
+    FX["into-fragment"] = ("pub const K: u32 = 5; pub fn mkp() -> u32 { 7 }\n"
+                           "macro_rules! mk2 { ($s:expr, $p:expr, $c:expr, $t:ty) => {\n"
+                           "  @TY pub struct D2 { @D1 pub s: ::std::string::String, @D2 pub n: u64, @D2 pub m: $t, @D3 pub k: u32, pub z: u8 }\n"
+                           "  @EN pub enum E2 { A, @DV B { @D1 s: ::std::string::String, @D2 n: $t }, C(u8) }\n"
+                           "} }\nmk2!(\"abc\", K, mkp(), u64);",
+                           {"@D1": "#[default($s)]", "@D2": "#[default($p)]", "@D3": "#[default($c)]", "@DV": "#[default]"},
+                           (("#[::derive_ex::derive_ex(Default, Clone)]", "#[::derive_ex::derive_ex(Default)]"),
+                            ("#[derive(::derive_ex::Ex)] #[derive_ex(Default)]", "#[derive(::derive_ex::Ex)] #[derive_ex(Default, Debug)]")))
+    TG = ("pub struct Tagged<T, Tag>(pub T, pub ::core::marker::PhantomData<fn() -> Tag>);\n"
+          "impl<T: ::core::clone::Clone, Tag> ::core::clone::Clone for Tagged<T, Tag> { fn clone(&self) -> Self { Tagged(self.0.clone(), ::core::marker::PhantomData) } }\n"
+          "macro_rules! tg { ($l:ty, $r:ty) => { impl<'a, T: ::core::marker::Copy + ::core::ops::Add<Output = T>, Tag> ::core::ops::Add<$r> for $l { type Output = Tagged<T, Tag>;\n"
+          "  fn add(self, rhs: $r) -> Tagged<T, Tag> { Tagged(self.0 + rhs.0, ::core::marker::PhantomData) } } } }\n"
+          "tg!(Tagged<T, Tag>, Tagged<T, Tag>); tg!(&'a Tagged<T, Tag>, Tagged<T, Tag>); tg!(Tagged<T, Tag>, &'a Tagged<T, Tag>); tg!(&'a Tagged<T, Tag>, &'a Tagged<T, Tag>);\n"
+          "impl<T: ::core::ops::Neg<Output = T>, Tag> ::core::ops::Neg for Tagged<T, Tag> { type Output = Self; fn neg(self) -> Self { Tagged(-self.0, ::core::marker::PhantomData) } }\n"
+          "impl<'a, T: ::core::marker::Copy + ::core::ops::Neg<Output = T>, Tag> ::core::ops::Neg for &'a Tagged<T, Tag> { type Output = Tagged<T, Tag>; fn neg(self) -> Tagged<T, Tag> { Tagged(-self.0, ::core::marker::PhantomData) } }\n"
+          "impl<T: ::core::ops::AddAssign, Tag> ::core::ops::AddAssign for Tagged<T, Tag> { fn add_assign(&mut self, rhs: Self) { self.0 += rhs.0; } }\n"
+          "impl<'a, T: ::core::ops::AddAssign + ::core::marker::Copy, Tag> ::core::ops::AddAssign<&'a Tagged<T, Tag>> for Tagged<T, Tag> { fn add_assign(&mut self, rhs: &'a Self) { self.0 += rhs.0; } }\n")
+    FX["self-in-field-type"] = (TG + "@TY pub struct Meters<T> { pub a: Tagged<T, Self>, pub b: Tagged<i8, Self> }\n@EN pub struct M2<T>(pub Tagged<T, Self>, pub i64);\n"
+                                "pub fn use_all(x: Meters<i32>, y: M2<i16>) -> (i32, i16) { (x.a.0 + x.b.0 as i32, y.0 .0 + y.1 as i16) }", {},
+                                (("#[::derive_ex::derive_ex(Add, Neg, Clone)]", "#[::derive_ex::derive_ex(Add, AddAssign)]"),
+                                 ("#[derive(::derive_ex::Ex)] #[derive_ex(Neg, Add, AddAssign)]", "#[derive(::derive_ex::Ex)] #[derive_ex(Clone, Add, Neg)]")))
+    for fam, (text, helpers, variants) in FX.items():
+        def fill(t, ty, en, on):
+            t = t.replace("@TY", ty).replace("@EN", en)
+            for k, v in helpers.items():
+                t = t.replace(k, v if on else "")
+            return t
+        ctl = C.Case("fxk", fill(text, "", "", False), {})
+        fxs = [C.Case(f"fx{k}", fill(text, ty, en, True), {}) for k, (ty, en) in enumerate(variants)]
+        _, fnotes = C.run_cases(fxs + [ctl], "c20x", header=HEADER, batch_size=1, runnable=False)
+        for nmsg in fnotes:
+            rep.inconcl(nmsg)
+        for c in fxs:
+            if c.status == "inconclusive" or ctl.status != "ok":
+                rep.inconcl(f"fixed program {fam}: " + ("control does not compile: " + str([d["message"] for d in ctl.diags][:2]) if ctl.status != "ok" else "inconclusive"))
+                continue
+            rep.evaluations += 1
+            rep.count("programs_fixed_with_control")
+            rep.nontrivial.add(("fixed", fam, c.name))
+            bad = [d for d in c.diags if d["level"] == "error" and not lint_allowed(d, allowed)]
+            if c.status == "compile_fail" and bad and not own_errors(c):
+                d = bad[0]
+                rep.violation(f"C20|{fam}|{d['code']}", f"rustc reports `{d['code']}: {(d['message'] or '')[:160]}` for a program derive_ex accepted "
+                              f"(the same program without derive_ex compiles under the same header):\n{c.code[:900]}", {"code": c.code})
     g0 = next(c for c in cases if c.meta.get("src") == "grammar" and c.status == "ok" and c.meta["spec"]["variants"])
     rep.sample({"source": g0.code, "status": g0.status})
     g1 = next((c for c in cases if c.meta.get("src") == "grammar" and c.status == "ok" and "by" in features(c.meta["spec"])), g0)
